@@ -134,7 +134,7 @@ func genCrashCfg(r *rng, tier string, prop string) CrashCfg {
 		c.CleanRestartInSetup = false
 		c.MaxImages = 80
 	}
-	if (!c.Pressure && r.Chance(map[string]float64{"thorough": 0.04}[tier]+0.015)) || os.Getenv("VERIF_FORCE_BIGTXN") != "" {
+	if (!c.Pressure && r.Chance(map[string]float64{"thorough": 0.04}[tier]+0.015+map[string]float64{"C08": 0.06}[prop])) || os.Getenv("VERIF_FORCE_BIGTXN") != "" {
 		c.Pressure = false
 		// log buffer wrap: one transaction writes more log than the 528 KB log buffer holds without any
 		// flush in between (pool large enough that nothing is evicted): the buffer is swapped and written
@@ -151,7 +151,7 @@ func genCrashCfg(r *rng, tier string, prop string) CrashCfg {
 			// scan evicts that page before the commit
 			c.Frames = 0
 			c.InitRows = 200 + r.Intn(200)
-			c.HotUpdates = 1150 + r.Intn(300)
+			c.HotUpdates = 1300 + r.Intn(300) // upper bound: the updates stop at the log buffer overflow
 		}
 		c.Slots = 1
 		c.PAuto = 0
@@ -262,6 +262,20 @@ func genOp(r *rng, c *CrashCfg, e *Exec, kg *keyGen) Op {
 	}
 	if c.BigTxn && c.HotUpdates > 0 {
 		all := &Pred{Logic: "OR", L: &Pred{Col: "k", Op: ">=", Val: int32(0)}, R: &Pred{Col: "k", Op: "<", Val: int32(0)}}
+		// the interesting moment is the update whose log record did not fit the log buffer any more (the
+		// buffer is written out in the middle of the append): stop the updates right there, so that this
+		// record is the last change of its page before the scan evicts it
+		wrapped := false
+		if rec := disk.SimRec; rec != nil && sl.rec != nil {
+			for i := sl.rec.BeginPos; i < len(rec.Events); i++ {
+				if rec.Events[i].Kind == 'L' && len(rec.Events[i].Data) > 400_000 {
+					wrapped = true
+				}
+			}
+		}
+		if wrapped && sl.mt.Stmts < c.HotUpdates {
+			sl.mt.Stmts = c.HotUpdates
+		}
 		switch {
 		case sl.mt.Stmts < c.HotUpdates:
 			hot := int32(1 + r.Intn(2))
